@@ -293,3 +293,102 @@ Fixpoint clients_at (b : branch) (q : path) : list cid :=
       | k :: r => find_with (fun sb => clients_at sb r) [] k ch
       end
   end.
+
+(** * Lock discipline of Match.mu: a small labelled transition system
+
+    Threads are calls in flight: [TUpd] = one Match.Update / UpdateOnce call,
+    [TRem] = one call of a removal closure, [TAdd] = one AddQuery call.  One
+    label = one atomic step of one thread; a schedule is a list of thread
+    numbers (Base/Lts.v), "for all interleavings" is "for all schedules".
+
+    Match.Update / UpdateOnce:  m.mu.RLock(); m.tree.update(...) -- which calls
+    client.Update for every matching client INSIDE the read-locked section --;
+    m.mu.RUnlock().  Steps: [UIdle -> UHold l]: RLock (enabled iff no writer
+    holds the lock); while the read lock is held no writer can change the
+    trie, so the calls the walk is going to make are fixed at that moment:
+    [l = fst (deliver (visit trie p) upd)].  [UHold (c :: l) -> UHold l]: one
+    client callback (event [EDeliver]).  [UHold [] -> UDone]: RUnlock, return.
+
+    removal closure / AddQuery:  m.mu.Lock(); change the trie; m.mu.Unlock().
+    [WIdle -> WHold]: Lock (enabled iff no reader and no writer) and the
+    change; [WHold -> WDone]: Unlock, the call RETURNS (event [EReturned]).
+
+    sync.RWMutex additionally blocks new readers while a writer waits; that
+    only removes behaviours, and everything proved here is a safety property
+    of all behaviours of the more permissive lock.
+
+    [locked = true] is the code as it is.  [locked = false] is the variant
+    "collect the clients under the read lock, call them after RUnlock" (the
+    read lock is taken and released inside the [UIdle -> UHold] step); it is
+    kept for the refutation MatchProofs.concurrent_unlocked_refuted. *)
+
+Inductive ustate := UIdle | UHold (pending : list cid) | UDone.
+Inductive wstate := WIdle | WHold | WDone.
+
+Inductive thread :=
+| TUpd (p : path) (upd : option (list cid)) (st : ustate)
+| TRem (q : path) (c : cid) (st : wstate)
+| TAdd (q : path) (c : cid) (st : wstate).
+
+Inductive event :=
+| EDeliver (tid : nat) (c : cid)     (* client.Update called by thread tid *)
+| EReturned (tid : nat).             (* the call of thread tid returned *)
+
+Record cstate := CS {
+  cs_trie : branch;
+  cs_readers : nat;                  (* holders of the read lock *)
+  cs_writer : bool;                  (* the write lock is held *)
+  cs_thr : list thread;
+  cs_trace : list event
+}.
+
+Fixpoint set_nth {A} (n : nat) (x : A) (l : list A) : list A :=
+  match l, n with
+  | [], _ => []
+  | _ :: l', O => x :: l'
+  | y :: l', S n' => y :: set_nth n' x l'
+  end.
+
+Definition cstep (locked : bool) (s : cstate) (tid : nat) : option cstate :=
+  match nth_error (cs_thr s) tid with
+  | None => None
+  | Some (TUpd p upd UIdle) =>
+      if cs_writer s then None
+      else Some (CS (cs_trie s) (if locked then S (cs_readers s) else cs_readers s) (cs_writer s)
+                    (set_nth tid (TUpd p upd (UHold (fst (deliver (visit (cs_trie s) p) upd)))) (cs_thr s))
+                    (cs_trace s))
+  | Some (TUpd p upd (UHold (c :: l))) =>
+      Some (CS (cs_trie s) (cs_readers s) (cs_writer s)
+               (set_nth tid (TUpd p upd (UHold l)) (cs_thr s))
+               (cs_trace s ++ [EDeliver tid c]))
+  | Some (TUpd p upd (UHold [])) =>
+      Some (CS (cs_trie s) (if locked then pred (cs_readers s) else cs_readers s) (cs_writer s)
+               (set_nth tid (TUpd p upd UDone) (cs_thr s))
+               (cs_trace s ++ [EReturned tid]))
+  | Some (TUpd _ _ UDone) => None
+  | Some (TRem q c WIdle) =>
+      if cs_writer s || negb (Nat.eqb (cs_readers s) 0) then None
+      else Some (CS (remove_root q c (cs_trie s)) (cs_readers s) true
+                    (set_nth tid (TRem q c WHold) (cs_thr s)) (cs_trace s))
+  | Some (TRem q c WHold) =>
+      Some (CS (cs_trie s) (cs_readers s) false
+               (set_nth tid (TRem q c WDone) (cs_thr s)) (cs_trace s ++ [EReturned tid]))
+  | Some (TRem _ _ WDone) => None
+  | Some (TAdd q c WIdle) =>
+      if cs_writer s || negb (Nat.eqb (cs_readers s) 0) then None
+      else Some (CS (add_query q c (cs_trie s)) (cs_readers s) true
+                    (set_nth tid (TAdd q c WHold) (cs_thr s)) (cs_trace s))
+  | Some (TAdd q c WHold) =>
+      Some (CS (cs_trie s) (cs_readers s) false
+               (set_nth tid (TAdd q c WDone) (cs_thr s)) (cs_trace s ++ [EReturned tid]))
+  | Some (TAdd _ _ WDone) => None
+  end.
+
+(** calls not yet started *)
+Definition thread_idle (t : thread) : bool :=
+  match t with
+  | TUpd _ _ UIdle | TRem _ _ WIdle | TAdd _ _ WIdle => true
+  | _ => false
+  end.
+
+Definition cinit (t0 : branch) (thr : list thread) : cstate := CS t0 0 false thr [].
